@@ -39,7 +39,10 @@ def configs(tier, seed):
                 ops.append(["index", rng.choice([0, 1, 2, -1])]); depth += 1
             elif r < 0.94 and depth > 0:
                 ops.append(["pop"]); depth -= 1
-            elif r < 0.97:
+            elif r < 0.955:
+                # an add() whose exception (if any) ESCAPES every open Cluster/Index block and is caught outside
+                ops.append(["add_escape", rng.choice(["a", "b", "", "a"]), rng.choice([1, dw, 3 * dw]), rng.choice([None, None, 1, -1])])
+            elif r < 0.975:
                 ops.append(["freeze"])
             else:
                 ops.append(["add_again"])
@@ -77,6 +80,21 @@ def reference(cfg):
             frozen = True; events.append("ok")
         elif op[0] == "add_again":
             events.append("ValueError" if regs or frozen else "skip")
+        elif op[0] == "add_escape":
+            _, name, w, off = op
+            if frozen:
+                ev_ = "ValueError"
+            elif not (isinstance(name, str) and name):
+                ev_ = "TypeError"
+            elif off is not None and not (isinstance(off, int) and off >= 0):
+                ev_ = "TypeError"
+            elif off is not None and off % (dw // g) != 0:
+                ev_ = "ValueError"
+            else:
+                ev_ = "ok"; regs.append((tuple(scope) + (name,), w, off))
+            if ev_ != "ok":
+                scope.clear()          # the exception unwinds every open `with` block
+            events.append(ev_)
         else:
             _, name, w, off = op
             if frozen:
@@ -128,10 +146,33 @@ def check_config(ctx, cfg):
                     cm = b.Index(op[1]); cm.__enter__(); scopes.append(cm); got = "ok"
                 elif op[0] == "pop":
                     if scopes:
-                        scopes.pop().__exit__(None, None, None)
+                        try:
+                            scopes.pop().__exit__(None, None, None)
+                        except Exception as e2:
+                            problems.append(f"leaving a scope block raised {type(e2).__name__}: scope stack out of step")
                     got = "pop"
                 elif op[0] == "freeze":
                     b.freeze(); got = "ok"; frozen_seen = True
+                elif op[0] == "add_escape":
+                    _, name, w, off = op
+                    reg = csr.Register(csr.Field(action.RW, w), access="rw")
+                    try:
+                        r = b.add(name, reg, offset=off)
+                        got = "ok" if r is reg else "wrong-return"
+                        last_reg = reg
+                    except (ValueError, TypeError) as e:
+                        # propagate the exception out of every open scope block, innermost first, as `with` would
+                        import sys as _sys
+                        info = (type(e), e, e.__traceback__)
+                        while scopes:
+                            cm = scopes.pop()
+                            try:
+                                cm.__exit__(*info)
+                            except type(e):
+                                pass
+                            except Exception as e2:
+                                problems.append(f"leaving a scope block while {type(e).__name__} propagates raised {type(e2).__name__}")
+                        got = type(e).__name__
                 elif op[0] == "add_again":
                     if last_reg is None and not frozen_seen:
                         got = "skip"
@@ -150,7 +191,10 @@ def check_config(ctx, cfg):
             if got != ev:
                 problems.append(f"op {op}: expected {ev}, got {got}")
         for cm in reversed(scopes):
-            cm.__exit__(None, None, None)
+            try:
+                cm.__exit__(None, None, None)
+            except Exception as e2:
+                problems.append(f"leaving a scope block raised {type(e2).__name__}: scope stack out of step")
     rej = [p for p in problems]
     try:
         mm = b.as_memory_map()
